@@ -223,6 +223,10 @@ void vf_native_note(const char * msg);
 /* Comparison results for the bounded harnesses: only the SIGN of a comparison is specified, so
  * the magnitude follows a fixed pattern over the calls (1s, where two results tie, and larger
  * values); a subtracting comparator would hide code that relies on magnitudes (seeded change C07-2). */
+/* the private pointer every harness hands to its comparison function; the comparison insists on it
+ * (seeded change C12-6 passed NULL in one recursive call) */
+static int vf_cmp_token;
+#define VF_CMP_PRIV ((void *)&vf_cmp_token)
 static inline int vf_signmag(int gt, int lt)
 {
     static const int mag[4] = { 2, 1, 1, 3 };
